@@ -69,6 +69,22 @@ LabelConflict(a, b) ==
 \* what must not depend on order and grouping
 Core(o) == [image |-> ImageOfBlocks(o.blocks), labels |-> LabelsOfObj(o.labels), rel |-> RelOfObj(o.rel)]
 
+\* C20 in its own words, for one link of two objects that carry symbol tables
+DefinedKeys(o) == { k \in DOMAIN o.labels : ~o.labels[k].ext }
+AddrIn(o, k) == o.labels[k].addr
+ExpLabelsOf(a, b) ==
+  { <<k, IF k \in DefinedKeys(a) THEN AddrIn(a, k) ELSE IF k \in DefinedKeys(b) THEN AddrIn(b, k)
+         ELSE IF k \in DOMAIN a.labels THEN AddrIn(a, k) ELSE AddrIn(b, k),
+      k \notin DefinedKeys(a) /\ k \notin DefinedKeys(b)>> : k \in (DOMAIN a.labels) \cup (DOMAIN b.labels) }
+AllRel(a, b) == RelOfObj(a.rel) \cup RelOfObj(b.rel)
+DefAddr(a, b, k) == IF k \in DefinedKeys(a) THEN AddrIn(a, k) ELSE AddrIn(b, k)
+ExpRelOf(a, b) == { e \in AllRel(a, b) : e[2] \notin DefinedKeys(a) \cup DefinedKeys(b) }
+ExpImageOf(a, b) ==
+  LET raw == ImageOfBlocks(a.blocks) \cup ImageOfBlocks(b.blocks)
+      res == { e \in AllRel(a, b) : e[2] \in DefinedKeys(a) \cup DefinedKeys(b) }
+  IN { p \in raw : \A e \in res : e[1] # p[1] } \cup { <<e[1], DefAddr(a, b, e[2])>> : e \in { e \in res : \E p \in raw : p[1] = e[1] } }
+
+
 \* loading: which externals are unresolved
 Unresolved(o) == o.sym /\ HasExternal(o.labels)
 =============================================================================
